@@ -685,3 +685,72 @@ func metaSelectionAgreement(c *an.Ctx, rule string, keys ...string) {
 	}
 	c.Floor(rule, n, 2, "readers of the given Meta keys")
 }
+
+// requiredPropagationRule: the Finalize methods copy the "required" flag of
+// every attribute they map to a transport element
+// (`if X.IsRequired(name) { Y.Validation.AddRequired(name) }`, once per element of
+// a loop). The statement must be reached for every element: no statement before
+// it in the loop body may `continue` (or break) - an element skipped there keeps
+// its place in the message/headers but silently becomes optional, and the
+// generated validation no longer rejects a request or response without it.
+func requiredPropagationRule(c *an.Ctx, rule string, dirs ...string) {
+	n := 0
+	for _, dir := range dirs {
+		for _, f := range c.AllFuncs(dir) {
+			info := f.Pkg.TypesInfo
+			ast.Inspect(f.Decl.Body, func(nd ast.Node) bool {
+				var body *ast.BlockStmt
+				switch x := nd.(type) {
+				case *ast.RangeStmt:
+					body = x.Body
+				case *ast.ForStmt:
+					body = x.Body
+				default:
+					return true
+				}
+				for i, st := range body.List {
+					is, ok := st.(*ast.IfStmt)
+					if !ok || is.Else != nil || len(is.Body.List) != 1 {
+						continue
+					}
+					cond, ok := an.Unparen(is.Cond).(*ast.CallExpr)
+					if !ok || !strings.HasSuffix(an.CalleeName(info, cond), "AttributeExpr).IsRequired") {
+						continue
+					}
+					es, ok := is.Body.List[0].(*ast.ExprStmt)
+					if !ok {
+						continue
+					}
+					call, ok := es.X.(*ast.CallExpr)
+					if !ok || !strings.HasSuffix(an.CalleeName(info, call), "ValidationExpr).AddRequired") {
+						continue
+					}
+					n++
+					skipped := ""
+					for _, before := range body.List[:i] {
+						// `if x == nil { continue }`: the element does not exist, there is nothing to propagate
+						if bis, ok := before.(*ast.IfStmt); ok && bis.Else == nil {
+							if cmp, ok := an.Unparen(bis.Cond).(*ast.BinaryExpr); ok && cmp.Op == token.EQL && an.IsNilIdent(info, cmp.Y) {
+								continue
+							}
+						}
+						ast.Inspect(before, func(m ast.Node) bool {
+							switch y := m.(type) {
+							case *ast.BranchStmt:
+								if y.Tok == token.CONTINUE || y.Tok == token.BREAK {
+									skipped = c.Position(y.Pos())
+								}
+							case *ast.FuncLit, *ast.RangeStmt, *ast.ForStmt:
+								return false
+							}
+							return true
+						})
+					}
+					c.Check(skipped == "", rule, fmt.Sprintf("%s#%s", f.Name, an.Src(c.Fset, call)), is.Pos(), "the required flag is propagated for every element of the loop", "an element can leave the iteration (at "+skipped+") before its required flag is propagated by `"+an.Src(c.Fset, call)+"`: it stays in the transport mapping but becomes optional")
+				}
+				return true
+			})
+		}
+	}
+	c.Floor(rule, n, 4, "required-flag propagations in loops")
+}
